@@ -321,7 +321,12 @@ PROPS = {
         'contract_modules': ['c12_eventmgr'],
         'functions': ['treadmill.eventmgr:EventMgr._cache', 'treadmill.eventmgr:EventMgr._synchronize'],
         'replay': 'c12.py',
+        'extra': [('bounded:sync-cases', bounded_replay('c12.py', 'C12', 'EventMgr._synchronize with the real fs.write_safe, observed at every rename', 600, 20000))],
         'assumptions': [
+            'BOUNDED stand-in (labelled bounded, never counted as proved) for what the dependency contract of fs.write_safe '
+            'assumes: replay/c12.py runs the real _synchronize / _cache / fs.write_safe on random cache directories and '
+            'reads the source of every os.replace at the instant of the rename (a reader or a crash must see a complete '
+            'manifest), including placement data with falsy values (identity 0, expires 0)',
             'ZooKeeper is a read-only store during one synchronisation: zk_has(path) / ZK_DATA[path] / zk_ctime(path); '
             'zkutils.get and get_with_metadata return the stored payload and raise NoNodeError exactly on absent nodes '
             '(dependency contracts); paths are built by treadmill.zknamespace.path.* (pure string builders: '
